@@ -494,7 +494,10 @@ AV Interp::icmp(CmpInst::Predicate P, const AV &a, const AV &b, int bits) {
     if (a.region == b.region) return AV::Int(cmp(a.off, b.off, (uint64_t)a.off, (uint64_t)b.off) ? -1 : 0, 1);
     if (P == CmpInst::ICMP_EQ) return AV::Int(0, 1);
     if (P == CmpInst::ICMP_NE) return AV::Int(-1, 1);
-    err("ordering comparison of pointers into different regions"); return AV::Top(1);
+    // distinct objects are disjoint; their relative order is unspecified but fixed. Runtime overlap checks emitted by
+    // LLVM's loop versioning are correct under every layout, so one consistent layout (regions in creation order, far apart) is assumed.
+    layoutAssumed++;
+    { int64_t x = a.region < 0 ? -1 : a.region, y = b.region < 0 ? -1 : b.region; return AV::Int(cmp(x, y, (uint64_t)(x + 1), (uint64_t)(y + 1)) ? -1 : 0, 1); }
   }
   if (a.k == AV::TOP || b.k == AV::TOP) return AV::Top(1);
   if (a == b) { bool v = (P == CmpInst::ICMP_EQ || P == CmpInst::ICMP_SLE || P == CmpInst::ICMP_SGE || P == CmpInst::ICMP_ULE || P == CmpInst::ICMP_UGE); return AV::Int(v ? -1 : 0, 1); }
